@@ -3,6 +3,7 @@
 Case = {"cfg": "graph"|"sgraph"|"cg"|"nest", "two": bool, "init": [[s,p,o,c]…],
         "ops": [["add",w,s,p,o,c(,route)] | ["remove",w,s,p,o,c(,route)] (None = wildcard) | ["commit",w] | ["rollback",w]
                 | compound writes (addn, parse, set, isub, rmctx, addf)
+                | ["upd",w,"insert"|"delete",quads] | ["upd",w,"clear",c] | ["upd",w,"delwhere",s,p,o,c]   (round g: SPARQL Update through Graph.update)
                 | ["bind",w,pfx,ns,override] | ["pass",w,kind]                      (round g: pass-through, not logged)
                 | ["triples",w,s,p,o,c] | ["len",w,c] | ["ctxs",w] | ["tctx",w,s,p,o] | ["ns",w]   (round g: reads through the wrapper)]}
 route (round g): absent = through Graph / ConjunctiveGraph objects as before; "store" = the wrapper's own add()/remove();
@@ -31,7 +32,7 @@ LEAN_TARGETS = ["RV.C18.Props", "RV.C18.Audit"]
 AUDIT = "RV/C18/Audit.lean"
 DRIVER = "drv_c18"
 CASES = {"quick": 1500, "thorough": 40000, "search": 20000}
-RULE = ("random histories (1-14 ops) of add / batch addN and += (duplicates inside a batch) / parse of an N-Triples document into a graph / Graph.set / -= / remove_context / pattern-remove / commit / rollback through Graph, ConjunctiveGraph "
+RULE = ("random histories (1-14 ops) of add / batch addN and += (duplicates inside a batch) / parse of an N-Triples document into a graph / Graph.set / -= / remove_context / SPARQL Update (INSERT DATA, DELETE DATA, DELETE WHERE, CLEAR GRAPH through Graph.update) / pattern-remove / commit / rollback through Graph, ConjunctiveGraph "
         "(graph given as Graph object or as identifier) or the wrapper's own add()/remove(), interleaved with bind, open/close/destroy/query and reads through the wrapper (triples, __len__, contexts, namespaces), "
         "over AuditableStore(Memory), a Graph over AuditableStore(SimpleMemory), or AuditableStore(AuditableStore(Memory)) with inner commits/rollbacks; one or two wrappers (disjoint subjects); non-trivial = at least one "
         "rollback or commit happens while the undo log is non-empty; distinct = distinct (cfg, init, ops)")
@@ -128,6 +129,35 @@ def gen_case(rng, tier, i):
                 ops.append(["tctx", wr] + q[:3])
             else:
                 ops.append([kind, wr])
+            continue
+        if r0 < 0.26 and cfg != "sgraph":
+            # SPARQL Update through Graph.update (the wrapper has no update(): rdflib's own processor evaluates the request
+            # and calls add / remove on the graphs): ground terms and IRI-named graphs only
+            ground = [x for x in ss if x != 2] or [1]
+            named = [DEFAULT_G] if cfg == "graph" else [90, 91, DEFAULT_G]
+            sub = rng.choice(["insert", "insert", "delete", "delwhere", "delwhere"] + (["clear"] if cfg != "graph" and not two else []))
+            c_ = rng.choice(named)
+
+            def gq():
+                return [rng.choice(ground), rng.choice(list(PRED)), rng.choice([20, 21, 22, 23, 24]), c_]
+            pool = [q for q in init + known(("add",)) if q[0] in ground and q[2] != 25 and q[3] in named]
+            if sub in ("insert", "delete"):
+                qs = []
+                for _k in range(rng.randint(1, 3)):
+                    q = list(rng.choice(pool)) if pool and rng.random() < (0.3 if sub == "insert" else 0.7) else gq()
+                    qs.append(q[:3] + [c_])
+                ops.append(["upd", w, sub, qs])
+            elif sub == "clear":
+                ops.append(["upd", w, "clear", c_])
+            else:
+                q = list(rng.choice(pool)) if pool and rng.random() < 0.7 else gq()
+                mask = rng.choice([1, 2, 3, 3]) if two else rng.choice([1, 2, 3, 4, 5, 6, 7])
+                for b_, j in ((1, 1), (2, 2), (4, 0)):
+                    if mask & b_:
+                        q[j] = None
+                # (always inside GRAPH <g>: without it rdflib's update evaluator matches in the union but deletes from the
+                #  default graph only - with or without the wrapper; that is the SPARQL subsystem's business, not C18's)
+                ops.append(["upd", w, "delwhere"] + q)
             continue
         r = rng.random()
         if r < 0.10:
@@ -422,6 +452,25 @@ def run_impl(case):
             else:
                 top.get_context(gn[c_]).parse(data=text, format="nt")
             dirty[w] = True
+        elif kind == "upd":
+            sub = op[2]
+
+            def n3(x):
+                return TERM[x].n3()
+
+            def wrap(body, c_):
+                return body if (cfg == "graph" or c_ is None or (c_ == DEFAULT_G and sub != "delwhere")) else "GRAPH %s { %s }" % (gn[c_].n3(), body)
+            if sub in ("insert", "delete"):
+                qs = op[3]
+                body = " ".join("%s %s %s ." % (n3(s_), n3(p_), n3(o_)) for s_, p_, o_, _c in qs)
+                top.update("%s DATA { %s }" % ("INSERT" if sub == "insert" else "DELETE", wrap(body, qs[0][3])))
+            elif sub == "clear":
+                top.update("CLEAR GRAPH %s" % gn[op[3]].n3())
+            else:
+                s, p, o, c = op[3:7]
+                body = "%s %s %s ." % tuple(("?v%d" % j) if x is None else n3(x) for j, x in enumerate((s, p, o)))
+                top.update("DELETE WHERE { %s }" % wrap(body, c))
+            dirty[w] = True
         elif kind == "set":
             s, p, o, c = op[2:]
             (top if cfg == "graph" else top.get_context(gn[c])).set((t(s), t(p), t(o)))
@@ -520,6 +569,7 @@ def run_impl(case):
                       **{"op_" + o[0]: 1 for o in case["ops"]},
                       **{"route_" + o[6]: 1 for o in case["ops"] if o[0] in ("add", "remove") and len(o) > 6},
                       **{"pass_" + o[2]: 1 for o in case["ops"] if o[0] == "pass"},
+                      **{"sparql_update_" + o[2]: 1 for o in case["ops"] if o[0] == "upd"},
                       "reads": sum(1 for x in kinds if x in READS),
                       "remove_all_graphs": sum(1 for o in case["ops"] if o[0] == "remove" and o[5] is None),
                       "remove_fully_bound": sum(1 for o in case["ops"] if o[0] == "remove" and None not in o[2:6]),
@@ -549,6 +599,15 @@ def _op_lines(op):
         return [f"isub {w} " + " ".join(" ".join(_w(x) for x in q) for q in op[2])]
     if k == "rmctx":
         return [f"rmctx {w} {op[2]}"]
+    if k == "upd":
+        sub = op[2]
+        if sub == "insert":
+            return [f"addn {w} " + " ".join(" ".join(_w(x) for x in q) for q in op[3])]
+        if sub == "delete":
+            return [f"isub {w} " + " ".join(" ".join(_w(x) for x in q) for q in op[3])]
+        if sub == "clear":
+            return [f"rmctx {w} {op[3]}"]
+        return [f"remove {w} " + " ".join(_w(x) for x in op[3:7])]
     if k == "bind":
         return [f"bind {w} {op[2]} {op[3]} {op[4]}"]
     if k == "pass":
